@@ -164,7 +164,8 @@ def check_roundtrip(replies, k, res, esc_false=False):
 # ---- part F: histories of attribute assignments on one Reply object
 F_OPS = ([('code', c) for c in ('250', '450', '550', '354')] +
          [('message', m) for m in ('2.1.0 ok', 'plain text', '5.7.1 denied', '4.3.0 later\r\nsecond line', '')] +
-         [('esc', e) for e in ('2.1.5', '5.0.0', '4.4.4', None)])
+         [('esc', e) for e in ('2.1.5', '5.0.0', '4.4.4', None)] +
+         [('copy', n) for n in ('timed_out', 'unknown_command', 'tls_failure')])        # Reply.copy() of a pre-defined reply
 _wire_esc = re.compile(br'^(\d)\d\d[ -]([245])\.\d{1,3}\.\d{1,3}(?= |\r|$)')
 
 
@@ -179,6 +180,9 @@ def check_history(hist, res):
                 r.code = val
             elif attr == 'message':
                 r.message = val
+            elif attr == 'copy':
+                import slimta.smtp.reply as _rm
+                r.copy(getattr(_rm, val))
             else:
                 r.enhanced_status_code = val
         except Exception as e:
@@ -197,6 +201,15 @@ def check_history(hist, res):
         if esc and code and code[0] in '245' and esc[0] != code[0]:
             out.append(({'part': 'history', 'kind': 'esc-class', 'where': 'object', 'last_op': attr},
                         'history %r: after step %d the reply has code %s and ESC %s' % (hist[:i + 1], i, code, esc), rep))
+        # what was written is a reply and nothing else: parsed back it gives the same code and text
+        back = make_body(1)(ScriptSocket(wire, FixedCtl('all')))
+        want = ((code, norm(r.message) if r.message is not None else None),)
+        got = tuple((g[0], norm(g[1]) if g[1] is not None else None) if isinstance(g, tuple) else g for g in back[0])
+        if code and code[0] in '245' and (got != want or back[1] != b''):
+            out.append(({'part': 'history', 'kind': 'written-reply-not-parsed-back', 'last_op': attr},
+                        'history %r: after step %d the reply (%s %r) is written as %r, which parses back as %r leaving %r'
+                        % (hist[:i + 1], i, code, r.message, wire, got, back[1]), rep))
+            return out
         for line in wire.split(b'\r\n'):
             m = _wire_esc.match(line)
             if m and m.group(1) in b'245' and m.group(1) != m.group(2):
